@@ -71,6 +71,21 @@ Theorem C05_fault_partial :
 Proof. exact fault_partial_lemma. Qed.
 Print Assumptions C05_fault_partial.
 
+(* At EVERY crash point (and in every outcome), under every fault schedule: no inode that existed at entry
+   has been written to (old destination, stale part file, bystanders: bytes, durable bytes, mode) and every
+   directory name other than destination and part file is bound as at entry.
+   This also settles the question of the directory's durability: AtomicSaver never fsyncs the directory, so
+   after a power cut the rename/link may be lost.  Whatever subset of the directory operations survives,
+   the destination then names either its entry inode - untouched by this theorem - or the published inode,
+   whose durable content is the complete new content (C04_crash): old or complete new, never partial. *)
+Theorem C05_entry_state_untouched :
+  forall c ops raises s0 umask crash sched o w,
+    c_dest c <> c_part c -> same_dir (c_part c) = true -> wf s0 ->
+    run_save c ops raises s0 umask crash sched = (o, w) ->
+    olds_same c s0 (w_fs w).
+Proof. exact crash_olds_lemma. Qed.
+Print Assumptions C05_entry_state_untouched.
+
 (* with rm_part_on_exc, after a failure no part file is left behind -- unless removing it is what
    failed, or it is a stale one we were not allowed to touch (overwrite_part off, or refusal) *)
 Theorem C05_cleanup :
